@@ -239,10 +239,15 @@ def _body_paths(check):
         check.obs[n0:] = [o for o in check.obs[n0:] if o.rule in ("LIM-CONSIST", "LIM-ZERO", "LIM-ODD", "LIM-AXIOM")]
     # 'the error of solve(...)[-1] at time T': the snapshot returned for a save time is the state of the
     # trajectory advanced to exactly that time by one forward step (same obligations as C07 DRV-SNAPSHOT)
-    from ..driver_rules import analyse_solve
+    from ..driver_rules import analyse_solve, analyse_entry_points
     from .c07 import report
     res_, _ = analyse_solve(proj)
-    report(check, res_, ("DRV-SNAPSHOT", "TS-FRESH-MAIN"))
+    analyse_entry_points(proj, res_)
+    # ... of a run that starts at the time of the field it is given, with the stopping criteria and options the caller passed,
+    # whose dictionaries it leaves as it found them (a convergence study calls solve() many times with the same objects)
+    report(check, res_, ("DRV-SNAPSHOT", "TS-FRESH-MAIN", "DRV-RESET", "DRV-FORWARD", "DRV-CALLER-PURE"))
+    from .c07 import field_deepcopy
+    check.guarded("FIELD-DEEPCOPY", "field.fdata", lambda: field_deepcopy(check))
     from .c10 import enclose
     n0 = len(check.obs)
     check.guarded("WAVE-ENCLOSE", "numflux", lambda: enclose(check, proj))
